@@ -380,3 +380,13 @@ pub fn utxo_merged(index: &Index, a: &[u8], b: &[u8]) -> Vec<u8> {
 pub fn utxo_empty(index: &Index) -> Vec<u8> {
   utxo_entry_bytes(UtxoEntryBuf::empty(index).as_ref())
 }
+
+/// `impl Entry for Rune` (`RUNE_TO_RUNE_ID` keys, `TRANSACTION_ID_TO_RUNE` values)
+pub fn rune_store(rune: Rune) -> u128 {
+  rune.store()
+}
+
+/// `Rune::load`
+pub fn rune_load(value: u128) -> Rune {
+  Rune::load(value)
+}
